@@ -245,17 +245,19 @@ type world struct {
 	evs   []evt
 	uuidN int
 
-	pqIDs    map[string]int // "prefix|platform string" -> id
-	pqNext   int
-	invKeys  map[int]invocation.Key
-	invRev   map[string]int
-	digests  map[string]int // hash -> index
-	clients  map[int]*call
-	syncs    map[string]*call // worker key -> active Synchronize
-	terms    map[int]*call
-	panicked string
-	dkeys    map[string]int
-	pqSpec   map[int]string // id -> "comps plat"
+	pqIDs     map[string]int // "prefix|platform string" -> id
+	pqNext    int
+	invKeys   map[int]invocation.Key
+	invRev    map[string]int
+	digests   map[string]int // hash -> index
+	clients   map[int]*call
+	syncs     map[string]*call // worker key -> active Synchronize
+	terms     map[int]*call
+	panicked  string
+	dkeys     map[string]int
+	pqSpec    map[int]string // id -> "comps plat"
+	slowSends bool
+	sending   map[int]*sendGate
 }
 
 type evt struct{ ent, text string }
@@ -400,7 +402,7 @@ func opIndex(name string) int {
 func newWorld(cfg config) *world {
 	w := &world{cfg: cfg, clk: &fakeClock{now: epoch}, cas: &fakeCAS{actions: map[string]*remoteexecution.Action{}},
 		pqIDs: map[string]int{}, invKeys: map[int]invocation.Key{}, invRev: map[string]int{}, digests: map[string]int{},
-		clients: map[int]*call{}, syncs: map[string]*call{}, terms: map[int]*call{}, dkeys: map[string]int{}, pqSpec: map[int]string{}}
+		clients: map[int]*call{}, syncs: map[string]*call{}, terms: map[int]*call{}, dkeys: map[string]int{}, pqSpec: map[int]string{}, sending: map[int]*sendGate{}}
 	w.an = &analyzerState{w: w, bg: -1, selCalls: map[int]int{}, learners: map[int]int{}}
 	allow := auth.NewStaticAuthorizer(func(digest.InstanceName) bool { return true })
 	gen := func() (uuid.UUID, error) {
@@ -434,6 +436,12 @@ type stream struct {
 	ctx context.Context
 }
 
+// slowSends (monitor-only histories): Send blocks until the harness releases it, so
+// that other segments can run while a message is "on the wire".
+type sendGate struct {
+	release chan struct{}
+}
+
 func (s *stream) Context() context.Context { return s.ctx }
 
 func (s *stream) Send(o *longrunningpb.Operation) error {
@@ -451,7 +459,27 @@ func (s *stream) Send(o *longrunningpb.Operation) error {
 		}
 	}
 	s.w.event(fmt.Sprintf("c%03d", s.c), fmt.Sprintf("msg c=%d op=%d st=%d done=%d code=%d tok=%d", s.c, opIndex(o.Name), int(md.Stage), done, code, tok))
+	if s.w.slowSends && done == 0 {
+		g := &sendGate{release: make(chan struct{})}
+		s.w.mu.Lock()
+		s.w.sending[s.c] = g
+		s.w.mu.Unlock()
+		<-g.release
+	}
 	return nil
+}
+
+// releaseSend lets a blocked Send of client c return; reports whether one was blocked.
+func (w *world) releaseSend(c int) bool {
+	w.mu.Lock()
+	g := w.sending[c]
+	delete(w.sending, c)
+	w.mu.Unlock()
+	if g == nil {
+		return false
+	}
+	close(g.release)
+	return true
 }
 
 func (w *world) guard(what string) {
